@@ -20,7 +20,7 @@ func init() {
 		Rule: "(a) all single-send scripts over the C04 source alphabet (accounts repeated, aliased through $v in {a,b,world}, bounded/unbounded overdraft, caps, allotments) with destinations {@x, @a, ordered-with-kept} x all balance sheets x all amounts; (b) all statement sequences of length <= L over the statement alphabet (sends, send-all, saves, money flowing back) x all sheets; (c) the shared small alphabets: statements taking amounts / caps / bounds / portions from variables incl. arithmetic on them (vars-L*), statements about edge relations - overdraft bound 0 or negative, an account paying itself, sources after a capped @world, an account named world:fees, saving exactly the balance (edge-L*), statements over two assets with amounts and accounts from balance() / overdraft() / meta() variables (origin-L*); " +
 			"oracle: replay of the returned postings in order on the starting balances, every non-exempt account stays >= min(start, -largest bounded grant); only successful executions are judged; non-trivial = success with >= 1 posting whose source is not exempt; distinct = script text + inputs",
 		Assumptions: []string{"exempt accounts: world and every account the script writes with `allowing unbounded overdraft` (resolved through variable values)", "a negative overdraft allowance is treated as 0 by the monitor (weaker than the letter of the statement, never stronger)"},
-		QuickBudget: 70 * time.Second,
+		QuickBudget: 240 * time.Second,
 		ThoroBudget: 12 * time.Minute,
 		Run:         func(w *mc.Worker) { runMoney(w, "C01") },
 	})
@@ -30,7 +30,7 @@ func init() {
 		Rule: "the C01 spaces plus negative caps on both sides, `kept` in every destination position, bounded overdraft under send-all with balance+grant < 0, account variables whose value is \"\" or the kept marker, a second asset; " +
 			"oracle: every posting of every successful execution has amount > 0, the asset of the send statement that produced it (per-statement attribution through prefix runs), non-empty accounts that are not the kept marker; negative sends are rejected; non-trivial = success with >= 1 posting; distinct = script text + inputs",
 		Assumptions: []string{"what an account variable with a value outside the account grammar means is not specified: only the postings of successful executions are judged for such inputs"},
-		QuickBudget: 70 * time.Second,
+		QuickBudget: 240 * time.Second,
 		ThoroBudget: 12 * time.Minute,
 		Run:         func(w *mc.Worker) { runMoney(w, "C02") },
 	})
